@@ -664,9 +664,9 @@ func run(r *ev.Run) {
 		"images are only taken at strictly quiescent points, where every actor is idle, gated or blocked, so no write is in flight",
 	}
 	dir := r.TempDir()
-	nG := r.Scale(50, 1600)
+	nG := r.Scale(120, 1600)
 	nGrow := r.Scale(5, 40)
-	r.MinDistinct = r.Scale(20, 600)
+	r.MinDistinct = r.Scale(50, 600)
 	cs := cfgs()
 	var wg sync.WaitGroup
 	sem := make(chan struct{}, 12)
